@@ -92,15 +92,15 @@ func syncCfgs(c *core.Ctx) []syncCfg {
 		"CompareAndDelete", 2, 2, "Range", 0, "Range", 2, "Clear")
 	return []syncCfg{
 		{Prim: "Mutex", MaxLen: pick(8, 10), Ops: ops("Lock", "Unlock"), Impl: true, Procs: 1},
-		{Prim: "RWMutex", MaxLen: pick(6, 7), Ops: ops("Lock", "Unlock", "RLock", "RUnlock"), Impl: true, Procs: 1},
+		{Prim: "RWMutex", MaxLen: pick(5, 7), Ops: ops("Lock", "Unlock", "RLock", "RUnlock"), Impl: true, Procs: 1},
 		{Prim: "WaitGroup", MaxLen: pick(5, 6), Ops: ops("Add", 1, "Add", 2, "Add", -1, "Add", -2, "Done", "Wait"), Impl: true, Procs: 4},
 		{Prim: "Once", MaxLen: pick(4, 5), Ops: ops("Do", 1, "Do", 2, "Do", 3, "Do", 4), Impl: true, Procs: 1},
 		{Prim: "Map", MaxLen: pick(3, 4), Ops: mapOps, Impl: true, Procs: 4},
-		{Prim: "Map", MaxLen: pick(4, 6), Ops: mapSmall, Impl: true, Procs: 4},
-		{Prim: "Pool", MaxLen: pick(5, 6), Ops: ops("SetNew", 1, "SetNew", 0, "Put", 1, "Put", 2, "Put", 0, "Get"), Impl: true, Procs: 4},
+		{Prim: "Map", MaxLen: pick(4, 5), Ops: mapSmall, Impl: true, Procs: 4},
+		{Prim: "Pool", MaxLen: pick(4, 6), Ops: ops("SetNew", 1, "SetNew", 0, "Put", 1, "Put", 2, "Put", 0, "Get"), Impl: true, Procs: 4},
 		// the wider API of package sync: specification against the guard only
-		{Prim: "Mutex", MaxLen: pick(6, 8), Ops: ops("Lock", "Unlock", "TryLock"), Procs: 1},
-		{Prim: "RWMutex", MaxLen: pick(4, 5), Ops: ops("Lock", "Unlock", "RLock", "RUnlock", "TryLock", "TryRLock", "RLocker.Lock", "RLocker.Unlock"), Procs: 1},
+		{Prim: "Mutex", MaxLen: pick(5, 8), Ops: ops("Lock", "Unlock", "TryLock"), Procs: 1},
+		{Prim: "RWMutex", MaxLen: pick(3, 5), Ops: ops("Lock", "Unlock", "RLock", "RUnlock", "TryLock", "TryRLock", "RLocker.Lock", "RLocker.Unlock"), Procs: 1},
 		{Prim: "Map", MaxLen: pick(3, 4), Ops: mapExt, Procs: 4},
 	}
 }
@@ -438,7 +438,7 @@ func runSync(c *core.Ctx, pool *gjs.Pool) bool {
 			return
 		}
 		nm, err := parseProgLines(b.Native.Lines, len(implPCs))
-		if err != nil || b.Native.End != "exit" {
+		if err != nil || !endedOK(b.Native) {
 			c.Infra(fmt.Errorf("native nosync executor: end=%s %s %v", b.Native.End, b.Native.Msg, err))
 			return
 		}
@@ -446,7 +446,7 @@ func runSync(c *core.Ctx, pool *gjs.Pool) bool {
 			results[i].native = nm[k]
 		}
 		jm, err := parseProgLines(b.JS.Lines, len(implPCs))
-		if err != nil || b.JS.End != "exit" {
+		if err != nil || !endedOK(b.JS) {
 			col.fail(&failure{group: "sync-js-abort", keys: []string{"nosync_executor_aborted"},
 				summary: fmt.Sprintf("the nosync history executor compiled by GopherJS did not run to completion: end=%s msg=%s err=%v (the same program built by the reference toolchain printed %d lines)", b.JS.End, b.JS.Msg, err, len(b.Native.Lines)),
 				files:   prog.ReplayFiles("prog")})
